@@ -495,72 +495,85 @@ CONTRACTS['modularity_louvain_und_sign'].concrete_ghosts = _louvain_sign_ghosts
 # returns it divided by s.  The sweeps of a level are used modularly (fragment contract community_louvain#level, which updates
 # Mb / Hnm / Hm in place); proved here: construction and symmetrisation of the kernel, initial bookkeeping, the outer loop with the
 # first-iteration branch, relabelling, composition of labels, aggregation, q = trace, the returned pair.
-def _setup_cl_full(eng, st):
-    N = z3.Int('N')
-    st.pc.append(N >= 1)
-    st.env['W'] = alloc(st, 2, z3.Const('W0', A2R), (N, N), REAL)
-    st.ghost['NN'] = N
-    st.env['gamma'] = z3.Real('gamma')
-    st.env['ci'] = None
-    st.env['B'] = 'modularity'
-    st.env['seed'] = Opaque('seed')
+def _setup_cl_full(given_ci):
+    def setup(eng, st):
+        N = z3.Int('N')
+        st.pc.append(N >= 1)
+        st.env['W'] = alloc(st, 2, z3.Const('W0', A2R), (N, N), REAL)
+        st.ghost['NN'] = N
+        st.env['gamma'] = z3.Real('gamma')
+        st.env['ci'] = alloc(st, 1, z3.Const('ci_in', A1I), (N,), INT) if given_ci else None
+        st.env['B'] = 'modularity'
+        st.env['seed'] = Opaque('seed')
+    return setup
 
 
 _CLF = [
     ('SIZES', "And(n >= 1, n <= NN, s == tsum(Worig, NN), s != 0)"),
-    # (with the default start ci = 1..N the first level is not special: the kernel is its own aggregate under singleton labels)
-    ('B-is-the-aggregate-of-the-kernel', "forall(lambda a, b: implies(And(inr(a, n), inr(b, n)), B[a, b] == agg(Bo, ci, a, b, NN)))"),
-    ('MB-level-starts-from-singletons', "forall(lambda y: implies(inr(y, n), Mb[y] == y + 1))"),
-    ('FIRST-level-works-on-the-original-nodes', "implies(first_iteration, And(n == NN, q - q0 > 1, forall(lambda x: implies(inr(x, NN), ci[x] == x + 1))))"),
-    ('Q-of-level', "implies(not first_iteration, q == QrawB(Bo, ci, NN))"),
+    # first level: the working matrix is the kernel itself and the level starts from the (canonicalised) start partition;
+    # later levels: the working matrix is the aggregate of the kernel under the current labels and the level starts from singletons
+    ('FIRST-level-works-on-the-original-nodes', "implies(first_iteration, And(n == NN, q - q0 > 1, forall(lambda x, y: implies(And(inr(x, NN), inr(y, NN)), B[x, y] == Bo[x, y])), "
+                                                "forall(lambda x: implies(inr(x, NN), Mb[x] == ci[x]))))"),
+    ('LATER-levels-work-on-the-aggregate', "implies(not first_iteration, And(forall(lambda a, b: implies(And(inr(a, n), inr(b, n)), B[a, b] == agg(Bo, ci, a, b, NN))), "
+                                           "forall(lambda y: implies(inr(y, n), Mb[y] == y + 1)), q == QrawB(Bo, ci, NN)))"),
     ('CI-labels-of-original-nodes', "forall(lambda x: implies(inr(x, NN), And(ci[x] >= 1, ci[x] <= n)))"),
     ('B-symmetric', "forall(lambda a, b: implies(And(inr(a, n), inr(b, n)), B[a, b] == B[b, a]))"),
     ('BOOKKEEPING-consistent', "forall(lambda x, mm: implies(And(inr(x, n), inr(mm, n)), Hnm[x, mm] == modsum(B, Mb, x, mm, n)))"),
     ('QMONO-never-below-start', "QrawB(Bo, ci, NN) >= QrawB(Bo, ci0, NN)"),
     ('FRAME-argument-untouched', "unchanged('W')"),
 ]
-CONTRACTS['community_louvain'] = Contract(
-    MOD, 'community_louvain', ['W', 'gamma', 'ci', 'B', 'seed'], setup=_setup_cl_full,
-    requires=[('total-weight-nonzero', "tsum(W, NN) != 0"), ('weights-nonnegative', "forall(lambda x, y: implies(And(inr(x, NN), inr(y, NN)), W[x, y] >= 0))")],
-    use_fragments={'level': dict(contract=CONTRACTS['community_louvain#level'], bind={'n0': 'n', 'Mb0': 'Mbs'}, ghost_before='Mbs = snapshot(Mb)', ghost_after='Mb_after_level = snapshot(Mb)')},
-    loops={
-        'for m in range(1, n + 1)': {'name': 'init', 'inv': [
-            ('INIT-columns-done', "forall(lambda x, mm: implies(And(inr(x, n), mm >= 0, mm < _it), Hnm[x, mm] == modsum(B, ci, x, mm, n)))"),
-            ('INIT-columns-todo', "forall(lambda x, mm: implies(And(inr(x, n), mm >= _it, mm < n), Hnm[x, mm] == 0))")]},
-        'while q - q0 > 1e-10': {'name': 'levels', 'inv': _CLF, 'shapes': {'B': ('n', 'n'), 'Hnm': ('n', 'n'), 'H': ('n',), 'Hm': ('n',), 'Mb': ('n',), 'ci': ('NN',)}},
-        'for u in range(1, n + 1)': {'name': 'compose', 'inv': [
-            ('COMPOSE-done', "forall(lambda x: implies(And(inr(x, NN), M0[x] <= _it), ci[x] == Mb[M0[x] - 1]))"),
-            ('COMPOSE-todo', "forall(lambda x: implies(And(inr(x, NN), M0[x] > _it), ci[x] == M0[x]))")]},
-        'for i in range(1, n + 1)': {'name': 'agg-rows', 'inv': [
-            ('AGG-done', "forall(lambda a, b: implies(And(inr(a, n), inr(b, n), Or(a < _it, b < _it)), b1[a, b] == agg(B, Mb, a, b, nl)))")]},
-        'for j in range(i, n + 1)': {'name': 'agg-cells', 'inv': [
-            ('AGG-done', "forall(lambda a, b: implies(And(inr(a, n), inr(b, n), Or(a < i - 1, b < i - 1)), b1[a, b] == agg(B, Mb, a, b, nl)))"),
-            ('AGG-current', "forall(lambda b: implies(And(b >= i - 1, b < i - 1 + _it), And(b1[i - 1, b] == agg(B, Mb, i - 1, b, nl), b1[b, i - 1] == agg(B, Mb, b, i - 1, nl))))"),
-            ('i-in-range', "And(i >= 1, i <= n)")]},
-    },
-    ghost_after={
-        's = np.sum(W)': "Worig = snapshot(W)",
-        'Hnm = np.zeros((n, n))': "Bo = snapshot(B); ci0 = snapshot(ci); assume(lemma_agg_identity(Bo, ci, NN))",
-        'Mb = np.arange(1, n + 1)': "assume(lemma_modularity(B, Mb, n))",
-        'q0 = -np.inf': "assume(INF > 1 + abs(np.sum(B[np.tile(ci, (n, 1)) == np.tile(ci, (n, 1)).T]) / s))",
-        'Mb += 1': "nl = n; cip = snapshot(ci); assume(lemma_relabel_B(B, Mb, Mb_after_level, n))",
-        'b1 = np.zeros((n, n))': "assume(lemma_agg_symm(B, Mb, nl))",
-        'for i in range(1, n + 1)': "Bl = snapshot(B); assume(lemma_agg_compose_B(Bo, cip, Bl, Mb, ci, NN, nl), lemma_agg_compose_B(Bo, cip, Bl, Mbs, cip, NN, nl), lemma_trace_agg(b1, Bo, ci, n, NN))",
-    },
-    ghost_before={
-        # (anchored next to, not on, the statements they are about)
-        'if not renormalize': "assume(lemma_Q_from_kernel(Bo, Worig, ci, gamma, s, NN), lemma_Q_from_kernel(Bo, Worig, ci0, gamma, s, NN))",
-    },
-    ensures=[
-        ('C02-q-is-the-objective-of-the-returned-labels-over-s', "result(1) == QrawB(Bo, result(0), NN) / s"),
-        ('C02-q-is-the-modularity-of-the-returned-labels', "result(1) == Qmod(Worig, result(0), gamma, NN)"),
-        ('C07-modularity-not-worse-than-singletons', "implies(s > 0, Qmod(Worig, result(0), gamma, NN) >= Qmod(Worig, ci0, gamma, NN))"),
-        ('C07-objective-not-worse-than-start', "QrawB(Bo, result(0), NN) >= QrawB(Bo, ci0, NN)"),
-        ('C02-labels-in-range', "forall(lambda x: implies(inr(x, NN), And(result(0)[x] >= 1, result(0)[x] <= NN)))"),
-        ('argument-untouched', "unchanged('W')"),
-    ],
-    ensures_raises=[('raises-only-on-a-runaway-loop', "raised('BCTParamError')")])
 
+
+def _cl_contract(given_ci):
+    key = 'community_louvain@ci' if given_ci else 'community_louvain'
+    return Contract(
+        MOD, 'community_louvain', ['W', 'gamma', 'ci', 'B', 'seed'], setup=_setup_cl_full(given_ci), key=key,
+        requires=[('total-weight-nonzero', "tsum(W, NN) != 0"), ('weights-nonnegative', "forall(lambda x, y: implies(And(inr(x, NN), inr(y, NN)), W[x, y] >= 0))")],
+        use_fragments={'level': dict(contract=CONTRACTS['community_louvain#level'], bind={'n0': 'n', 'Mb0': 'Mbs'}, ghost_before='Mbs = snapshot(Mb)', ghost_after='Mb_after_level = snapshot(Mb)')},
+        loops={
+            'for m in range(1, n + 1)': {'name': 'init', 'inv': [
+                ('INIT-columns-done', "forall(lambda x, mm: implies(And(inr(x, n), mm >= 0, mm < _it), Hnm[x, mm] == modsum(B, ci, x, mm, n)))"),
+                ('INIT-columns-todo', "forall(lambda x, mm: implies(And(inr(x, n), mm >= _it, mm < n), Hnm[x, mm] == 0))")]},
+            'while q - q0 > 1e-10': {'name': 'levels', 'inv': _CLF, 'shapes': {'B': ('n', 'n'), 'Hnm': ('n', 'n'), 'H': ('n',), 'Hm': ('n',), 'Mb': ('n',), 'ci': ('NN',)}},
+            'for u in range(1, n + 1)': {'name': 'compose', 'inv': [
+                ('COMPOSE-done', "forall(lambda x: implies(And(inr(x, NN), M0[x] <= _it), ci[x] == Mb[M0[x] - 1]))"),
+                ('COMPOSE-todo', "forall(lambda x: implies(And(inr(x, NN), M0[x] > _it), ci[x] == M0[x]))")]},
+            'for i in range(1, n + 1)': {'name': 'agg-rows', 'inv': [
+                ('AGG-done', "forall(lambda a, b: implies(And(inr(a, n), inr(b, n), Or(a < _it, b < _it)), b1[a, b] == agg(B, Mb, a, b, nl)))")]},
+            'for j in range(i, n + 1)': {'name': 'agg-cells', 'inv': [
+                ('AGG-done', "forall(lambda a, b: implies(And(inr(a, n), inr(b, n), Or(a < i - 1, b < i - 1)), b1[a, b] == agg(B, Mb, a, b, nl)))"),
+                ('AGG-current', "forall(lambda b: implies(And(b >= i - 1, b < i - 1 + _it), And(b1[i - 1, b] == agg(B, Mb, i - 1, b, nl), b1[b, i - 1] == agg(B, Mb, b, i - 1, nl))))"),
+                ('i-in-range', "And(i >= 1, i <= n)")]},
+        },
+        ghost_after={
+            's = np.sum(W)': "Worig = snapshot(W)",
+            'Hnm = np.zeros((n, n))': "Bo = snapshot(B); ci0 = snapshot(ci)",
+            'q0 = -np.inf': "assume(INF > 1 + abs(np.sum(B[np.tile(ci, (n, 1)) == np.tile(ci, (n, 1)).T]) / s))",
+            'Mb += 1': "nl = n; cip = snapshot(ci); assume(lemma_relabel_B(B, Mb, Mb_after_level, n))",
+            'Mb = np.arange(1, n + 1)': "assume(lemma_modularity(B, Mb, n))",
+            'b1 = np.zeros((n, n))': "assume(lemma_agg_symm(B, Mb, nl))",
+            # first level: B is the kernel cell by cell (extensionality) and the start labels of the level are the current labels; later
+            # levels: aggregation composes.  Each instance is an implication; the one whose hypotheses hold on the path is used.
+            'for i in range(1, n + 1)': "Bl = snapshot(B); assume(lemma_ext_B(Bl, Bo, Mb, NN), lemma_ext_B(Bl, Bo, Mbs, NN), lemma_relabel_B(Bo, Mbs, cip, NN), "
+                                        "lemma_agg_compose_B(Bo, cip, Bl, Mb, ci, NN, nl), lemma_agg_compose_B(Bo, cip, Bl, Mbs, cip, NN, nl), lemma_trace_agg(b1, Bo, ci, n, NN))",
+        },
+        ghost_before={
+            # (anchored next to, not on, the statements they are about)
+            'if not renormalize': "assume(lemma_Q_from_kernel(Bo, Worig, ci, gamma, s, NN), lemma_Q_from_kernel(Bo, Worig, ci0, gamma, s, NN))",
+        },
+        ensures=[
+            ('C02-q-is-the-objective-of-the-returned-labels-over-s', "result(1) == QrawB(Bo, result(0), NN) / s"),
+            ('C02-q-is-the-modularity-of-the-returned-labels', "result(1) == Qmod(Worig, result(0), gamma, NN)"),
+            ('C07-modularity-not-worse-than-the-start', "implies(s > 0, Qmod(Worig, result(0), gamma, NN) >= Qmod(Worig, ci0, gamma, NN))"),
+            ('C07-objective-not-worse-than-start', "QrawB(Bo, result(0), NN) >= QrawB(Bo, ci0, NN)"),
+            ('C02-labels-in-range', "forall(lambda x: implies(inr(x, NN), And(result(0)[x] >= 1, result(0)[x] <= NN)))"),
+            ('argument-untouched', "unchanged('W')" + (" and unchanged('ci')" if False else "")),
+        ],
+        ensures_raises=[('raises-only-on-a-runaway-loop', "raised('BCTParamError')")])
+
+
+CONTRACTS['community_louvain'] = _cl_contract(False)
+CONTRACTS['community_louvain@ci'] = _cl_contract(True)
 
 
 def _cl_ghosts(args, result, locs):
@@ -569,7 +582,9 @@ def _cl_ghosts(args, result, locs):
     N = len(W)
     s = W.sum()
     K = W - args['gamma'] * np.outer(W.sum(axis=1), W.sum(axis=0)) / s
-    return {'Worig': W, 'NN': N, 'Bo': (K + K.T) / 2, 'ci0': np.arange(N) + 1, 's': s}
+    start = np.arange(N) + 1 if args.get('ci') is None else np.unique(np.asarray(args['ci']), return_inverse=True)[1] + 1
+    return {'Worig': W, 'NN': N, 'Bo': (K + K.T) / 2, 'ci0': start, 's': s}
 
 
 CONTRACTS['community_louvain'].concrete_ghosts = _cl_ghosts
+CONTRACTS['community_louvain@ci'].concrete_ghosts = _cl_ghosts
